@@ -28,6 +28,9 @@ class P(MetProp):
             [{"app": "a", "pod": "p1", "inst": "i1"}, {"app": "a", "pod": "p2", "inst": "i1"}, {"app": "a", "pod": "p1", "inst": "i2"}, {"app": "b", "pod": "p3", "inst": "i1"}, {"app": "c", "pod": "p1", "inst": "i2"}],
             [{"app": "a"}, {"app": "b"}, {"app": "c"}, {"app": "d"}, {"app": "e"}, {"app": "f"}],
             [{"app": "a", "pod": "p1"}, {"app": "a"}, {"pod": "p1"}],
+            # values holding the bytes a key encoding might use as separators: the two sets must stay two groups
+            [{"a": "x\udcffb\udcffy"}, {"a": "x", "b": "y"}, {"a": "x\udcff", "b": "y"}, {"a": "x", "b": "\udcffy"}],
+            [{"a": "x\x00b\x00y"}, {"a": "x", "b": "y"}, {"a": "x,b=y"}, {"a": "x", "b": ""}],
         ])
         names = sorted({k for d in ls for k in d})
         rng_ns = rng.choice([2, 3]) * S
